@@ -1,3 +1,103 @@
 // Kani harnesses mounted into crates/rip-tools/src/runtime.rs (cfg(kani) only).
 #![allow(unused_imports, dead_code)]
 use super::*;
+include!("/verif/harness/common.rs");
+
+fn stub_uuid_v4() -> Uuid {
+    Uuid::from_bytes([7u8; 16])
+}
+fn stub_now_ms() -> u64 {
+    kani::any()
+}
+fn stub_to_string<T: core::fmt::Display + ?Sized>(_t: &T) -> String {
+    String::new()
+}
+
+// the checkpoint hook double: answers per shape, records what it was asked for
+struct HookDouble {
+    ok: bool,
+    calls: core::cell::Cell<u32>,
+    saw_auto: core::cell::Cell<bool>,
+    saw_files: core::cell::Cell<usize>,
+}
+unsafe impl Sync for HookDouble {}
+unsafe impl Send for HookDouble {}
+impl CheckpointHook for HookDouble {
+    fn create(&self, request: CheckpointRequest) -> Result<CheckpointRecord, String> {
+        self.calls.set(self.calls.get() + 1);
+        self.saw_auto.set(request.auto);
+        self.saw_files.set(request.files.len());
+        core::mem::forget(request);
+        if self.ok {
+            Ok(CheckpointRecord { id: String::new(), label: String::new(), created_at_ms: 0, files: Vec::new() })
+        } else {
+            Err(String::new())
+        }
+    }
+    fn rewind(&self, _s: &str, _c: &str) -> Result<CheckpointRewindRecord, String> {
+        Err(String::new())
+    }
+}
+fn files_one(_inv: &ToolInvocation) -> Result<Option<Vec<PathBuf>>, String> {
+    let mut v = Vec::with_capacity(1);
+    v.push(PathBuf::from("a"));
+    Ok(Some(v))
+}
+fn files_none(_inv: &ToolInvocation) -> Result<Option<Vec<PathBuf>>, String> {
+    Ok(None)
+}
+fn files_err(_inv: &ToolInvocation) -> Result<Option<Vec<PathBuf>>, String> {
+    Err(String::new())
+}
+
+// C01 (session seq threaded through the tool runner) + C14 (the automatic checkpoint is requested, as `auto`, for the
+// files the tool names, and its outcome frame precedes the tool's own frames): the real emit_checkpoint_events /
+// emit with the session's seq symbolic. Shape = (what the invocation names, hook outcome).
+macro_rules! c01_tool_checkpoint {
+    ($name:ident, $files:path, $hook_ok:expr, $want_frames:expr, $want_created:expr, $want_calls:expr) => {
+        #[kani::proof]
+        #[kani::unwind(6)]
+        #[kani::stub(std::fmt::format, stub_fmt_format)]
+        #[kani::stub(std::hash::RandomState::new, stub_random_state_new)]
+        #[kani::stub(uuid::Uuid::new_v4, stub_uuid_v4)]
+        #[kani::stub(now_ms, stub_now_ms)]
+        #[kani::stub(alloc::string::ToString::to_string, stub_to_string)]
+        #[kani::stub(files_for_invocation, $files)]
+        fn $name() {
+            let hook = Arc::new(HookDouble { ok: $hook_ok, calls: core::cell::Cell::new(0), saw_auto: core::cell::Cell::new(false), saw_files: core::cell::Cell::new(0) });
+            let dyn_hook: Arc<dyn CheckpointHook> = hook.clone();
+            let runner = ToolRunner {
+                registry: Arc::new(ToolRegistry::default()),
+                semaphore: Arc::new(Semaphore::new(1)),
+                checkpoint_hook: Some(dyn_hook),
+            };
+            let inv = ToolInvocation { name: String::from("write"), args: Value::Null, timeout_ms: None };
+            let seq_in: u64 = kani::any();
+            kani::assume(seq_in < u64::MAX - 4);
+            let mut seq = seq_in;
+            let mut events: Vec<Event> = Vec::with_capacity(2);
+            runner.emit_checkpoint_events("s", &mut seq, &inv, &mut events);
+            assert!(events.len() == $want_frames, "wrong number of checkpoint frames for this tool invocation");
+            assert!(seq == seq_in + $want_frames as u64, "session seq not advanced by exactly the number of frames emitted");
+            if $want_frames == 1 {
+                assert!(events[0].seq == seq_in, "checkpoint frame does not carry the session's current seq");
+                let created = matches!(events[0].kind, EventKind::CheckpointCreated { auto: true, .. });
+                let failed = matches!(events[0].kind, EventKind::CheckpointFailed { .. });
+                assert!(created == $want_created && failed == !$want_created, "checkpoint outcome frame does not match the hook's outcome");
+            }
+            assert!(hook.calls.get() == $want_calls, "checkpoint hook called a wrong number of times");
+            if $want_calls == 1 {
+                assert!(hook.saw_auto.get() && hook.saw_files.get() == 1, "automatic checkpoint not requested as `auto` for exactly the files the tool names");
+            }
+            kani::cover!(true, "decided");
+            core::mem::forget(events);
+            core::mem::forget(inv);
+            core::mem::forget(runner);
+            core::mem::forget(hook);
+        }
+    };
+}
+c01_tool_checkpoint!(c01_tool_checkpoint_created, files_one, true, 1, true, 1);
+c01_tool_checkpoint!(c01_tool_checkpoint_hook_failed, files_one, false, 1, false, 1);
+c01_tool_checkpoint!(c01_tool_checkpoint_bad_args, files_err, true, 1, false, 0);
+c01_tool_checkpoint!(c01_tool_checkpoint_not_editing, files_none, true, 0, false, 0);
